@@ -76,6 +76,14 @@ func (c11) Gen(r *rand.Rand, tier string, idx int) *core.Plan {
 			p.Faults = append(p.Faults, rt.Fault{Task: 0, Op: "registry.push", Nth: r.IntN(6), Kind: "EIO"})
 		}
 	}
+	// the tag moves: a new build is pushed under the same tag between two calls (drawn last: the plans are otherwise
+	// what they were). Not for kind 2, whose client holds a store instance of its own that another writer cannot reach.
+	if p.World["store"] != 2 && len(p.Ops) >= 2 && r.IntN(3) == 0 {
+		at := 1 + r.IntN(len(p.Ops)-1)
+		ops := append([]core.Op{}, p.Ops[:at]...)
+		ops = append(ops, core.Op{Kind: "retag"})
+		p.Ops = append(ops, p.Ops[at:]...)
+	}
 	return p
 }
 
@@ -87,6 +95,7 @@ type sharingRepo struct {
 	// confused: resolves every reference to the stored artifact (a registry that answers a digest reference with another digest)
 	confused bool
 	pushed   []c11Push
+	older    map[string]ocispec.Descriptor
 }
 
 type c11Push struct {
@@ -102,6 +111,9 @@ func (r *sharingRepo) Resolve(ctx context.Context, reference string) (ocispec.De
 	}
 	if r.confused || r.tags[reference] || reference == r.stored.Digest.String() {
 		return r.stored, nil
+	}
+	if d, ok := r.older[reference]; ok {
+		return d, nil // an earlier build, no longer tagged, still in the registry
 	}
 	return ocispec.Descriptor{}, errors.New("not found")
 }
@@ -214,9 +226,14 @@ func (l c11) Exec(env *core.Env) *core.Result {
 	var sr *sharingRepo
 	var resolvedWant ocispec.Descriptor
 	const tag = "v1"
+	build := 0
 	setup := func(s oras.GraphTarget) error {
 		cfg, _ := world.EmptyConfig(ctx, s, "application/vnd.example.config+json")
-		layer, _ := world.PushBlob(ctx, s, "application/octet-stream", []byte("c11 layer"))
+		content := "c11 layer"
+		if build > 0 {
+			content = fmt.Sprint("c11 layer, build ", build)
+		}
+		layer, _ := world.PushBlob(ctx, s, "application/octet-stream", []byte(content))
 		d, err := world.PushManifest(ctx, s, ocispec.Manifest{Config: cfg, Layers: []ocispec.Descriptor{layer}})
 		if err != nil {
 			return err
@@ -303,6 +320,9 @@ func (l c11) Exec(env *core.Env) *core.Result {
 			var d ocispec.Descriptor
 			if sr != nil {
 				d = sr.stored
+				if o, ok := sr.older[artifactDigest]; ok && byDigest && !sr.confused {
+					d = o
+				}
 			} else if byDigest {
 				d, _ = reader().Resolve(ctx, artifactDigest)
 			} else {
@@ -339,6 +359,32 @@ func (l c11) Exec(env *core.Env) *core.Result {
 						views = map[bool]ocispec.Descriptor{false: view(false), true: view(true)} // a re-opened layout reports the tag annotation it loaded from index.json
 					}
 				}
+				continue
+			}
+			if op.Kind == "retag" {
+				// a new build is pushed under the same tag; the first build stays in the registry, reachable by its digest
+				build++
+				if sr != nil {
+					if sr.older == nil {
+						sr.older = map[string]ocispec.Descriptor{}
+					}
+					sr.older[sr.stored.Digest.String()] = sr.stored
+					sr.stored = ocispec.Descriptor{MediaType: ocispec.MediaTypeImageManifest, Digest: digest.FromString(fmt.Sprint("c11 artifact, build ", build)), Size: 528 + int64(build), Annotations: copyMap(baseAnn)}
+					// digest references keep naming the first build; a confused registry answers them with the new one
+					views = map[bool]ocispec.Descriptor{false: view(false), true: view(true)}
+				} else if storeKind != 2 {
+					if err := setup(inner); err != nil {
+						res.Violate("HARNESS/retag", "", "%v", err)
+						return
+					}
+					views[false] = view(false)
+					if views[false].Digest == views[true].Digest {
+						res.Violate("HARNESS/retag", "", "the tag did not move")
+						return
+					}
+				}
+				res.Probe("tag_moved_to_a_new_build_between_two_calls")
+				res.Nontrivial = true
 				continue
 			}
 			rt.Sleep(time.Duration(op.Int(4))*time.Second + 250*time.Millisecond)
@@ -405,6 +451,9 @@ func (l c11) Exec(env *core.Env) *core.Result {
 				}
 			}
 			mismatch := strings.HasSuffix(ref, digest.FromString("another artifact").String()) || strings.HasSuffix(ref, digest.SHA512.FromString("another artifact").String())
+			if sr != nil && sr.confused && build > 0 && strings.HasSuffix(ref, artifactDigest) {
+				mismatch = true // the first build's digest, answered with the new build
+			}
 			metaBefore, cfgBefore := copyMap(opts.UserMetadata), copyMap(opts.PluginConfig)
 			// snapshots
 			var refsBefore map[digest.Digest]ocispec.Manifest
